@@ -325,6 +325,10 @@ def check_paths(case, ctx):
                 ra, rb = X.refine_crossing(x, y, c[0], c[1])
                 if abs(ra - c[0]) > 0.02 or abs(rb - c[1]) > 0.02:
                     ctx.discard('polyline estimate of a crossing did not refine')
+                # regular crossing: where the speed of a curve (nearly) vanishes its parameter is ill-conditioned (the point barely
+                # moves over 1e-3 in t), as in the constructed cases
+                if abs(X.spec_tangent(x, ra)) < 1e-2 * gen.spec_size([x]) or abs(X.spec_tangent(y, rb)) < 1e-2 * gen.spec_size([y]):
+                    ctx.discard('(near-)cusp at the crossing')
                 expected.append((i, j, ra, rb))
             for c in cr:
                 for d in cr:
